@@ -14,8 +14,15 @@ CaseOf(m) == LET r == Read(Write(m)) IN
     [mol |-> [name |-> m.name, nrexcl |-> m.nrexcl, atoms |-> m.atoms, inter |-> m.inter, edges |-> IntEdges(m.edges),
               rnodes |-> SetToSeq(m.rnodes), redges |-> IntEdges(m.redges)],
      exp |-> ExpOf(m), missing |-> IntEdges(Missing(m)), rg |-> GraphJson(Requested(m)),
-     pred |-> [ok |-> r.ok, atoms |-> r.atoms, inter |-> r.inter], rgpred |-> GraphJson(ReadResGraph(r)),
-     law |-> RoundTrip(m), rglaw |-> ResGraphLaw(m)]
+     pred |-> [ok |-> r.ok, name |-> r.name, nrexcl |-> r.nrexcl, atoms |-> r.atoms,
+               inter |-> [i \in DOMAIN r.inter |-> [sec |-> r.inter[i].sec, alts |-> SetToSeq(Alts(r.inter[i].sec, r.inter[i].atoms)),
+                                                     par |-> r.inter[i].par, gk |-> r.inter[i].gk, gtag |-> r.inter[i].gtag]]],
+     rgpred |-> GraphJson(ReadResGraph(r)),
+     law |-> RoundTrip(m), rglaw |-> ResGraphLaw(m),
+     \* which clause of the law fails for this molecule in the specification itself (names of the known findings)
+     finding |-> IF r.atoms # Project(m).atoms THEN "mass-without-charge"
+                 ELSE IF ~BagEqMod(r.inter, Project(m).inter) THEN "angle-restraints-z-reversed"
+                 ELSE IF ~ResGraphLaw(m) THEN "residue-edge-without-bond" ELSE ""]
 ExportInv == pc = "start" => PrintT(<<"CASE", ToJson(CaseOf(mol))>>)
 CountInv == pc = "start" => TRUE
 =============================================================================
